@@ -526,6 +526,58 @@ theorem C02_facts_body_DecodeUint256 : body_DecodeUint256 = Hive.Spec.DeserFacts
 
 theorem C02_facts_body_DecodeUint64 : body_DecodeUint64 = Hive.Spec.DeserFacts.body_DecodeUint64 := rfl
 
+theorem C02_facts_body_Deserializer_ReadBool : body_Deserializer_ReadBool = Hive.Spec.DeserFacts.body_Deserializer_ReadBool := rfl
+
+theorem C02_facts_body_Deserializer_ReadByte : body_Deserializer_ReadByte = Hive.Spec.DeserFacts.body_Deserializer_ReadByte := rfl
+
+theorem C02_facts_body_Deserializer_ReadUint256 : body_Deserializer_ReadUint256 = Hive.Spec.DeserFacts.body_Deserializer_ReadUint256 := rfl
+
+theorem C02_facts_body_Deserializer_ReadNum : body_Deserializer_ReadNum = Hive.Spec.DeserFacts.body_Deserializer_ReadNum := rfl
+
+theorem C02_facts_body_Deserializer_ReadBytesInPlace : body_Deserializer_ReadBytesInPlace = Hive.Spec.DeserFacts.body_Deserializer_ReadBytesInPlace := rfl
+
+theorem C02_facts_body_Deserializer_ReadObject : body_Deserializer_ReadObject = Hive.Spec.DeserFacts.body_Deserializer_ReadObject := rfl
+
+theorem C02_facts_body_Deserializer_readObject : body_Deserializer_readObject = Hive.Spec.DeserFacts.body_Deserializer_readObject := rfl
+
+theorem C02_facts_body_Deserializer_ReadSliceOfObjects : body_Deserializer_ReadSliceOfObjects = Hive.Spec.DeserFacts.body_Deserializer_ReadSliceOfObjects := rfl
+
+theorem C02_facts_body_Deserializer_CheckTypePrefix : body_Deserializer_CheckTypePrefix = Hive.Spec.DeserFacts.body_Deserializer_CheckTypePrefix := rfl
+
+theorem C02_facts_body_Deserializer_ConsumedAll : body_Deserializer_ConsumedAll = Hive.Spec.DeserFacts.body_Deserializer_ConsumedAll := rfl
+
+theorem C02_facts_body_Deserializer_AbortIf : body_Deserializer_AbortIf = Hive.Spec.DeserFacts.body_Deserializer_AbortIf := rfl
+
+theorem C02_facts_body_Deserializer_WithValidation : body_Deserializer_WithValidation = Hive.Spec.DeserFacts.body_Deserializer_WithValidation := rfl
+
+theorem C02_facts_body_Deserializer_Do : body_Deserializer_Do = Hive.Spec.DeserFacts.body_Deserializer_Do := rfl
+
+theorem C02_facts_body_ArrayRules_CheckBounds : body_ArrayRules_CheckBounds = Hive.Spec.DeserFacts.body_ArrayRules_CheckBounds := rfl
+
+theorem C02_facts_body_ArrayRules_ElementUniqueValidator : body_ArrayRules_ElementUniqueValidator = Hive.Spec.DeserFacts.body_ArrayRules_ElementUniqueValidator := rfl
+
+theorem C02_facts_body_ArrayRules_LexicalOrderValidator : body_ArrayRules_LexicalOrderValidator = Hive.Spec.DeserFacts.body_ArrayRules_LexicalOrderValidator := rfl
+
+theorem C02_facts_body_ArrayRules_LexicalOrderWithoutDupsValidator : body_ArrayRules_LexicalOrderWithoutDupsValidator = Hive.Spec.DeserFacts.body_ArrayRules_LexicalOrderWithoutDupsValidator := rfl
+
+theorem C02_facts_body_ArrayRules_AtMostOneOfEachTypeValidator : body_ArrayRules_AtMostOneOfEachTypeValidator = Hive.Spec.DeserFacts.body_ArrayRules_AtMostOneOfEachTypeValidator := rfl
+
+theorem C02_facts_body_ArrayRules_ElementValidationFunc : body_ArrayRules_ElementValidationFunc = Hive.Spec.DeserFacts.body_ArrayRules_ElementValidationFunc := rfl
+
+theorem C02_facts_body_API_JSONDecode : body_API_JSONDecode = Hive.Spec.DeserFacts.body_API_JSONDecode := rfl
+
+theorem C02_facts_body_API_MapDecode : body_API_MapDecode = Hive.Spec.DeserFacts.body_API_MapDecode := rfl
+
+theorem C02_facts_body_API_mapDecode : body_API_mapDecode = Hive.Spec.DeserFacts.body_API_mapDecode := rfl
+
+theorem C02_facts_body_mapDecodeBytes : body_mapDecodeBytes = Hive.Spec.DeserFacts.body_mapDecodeBytes := rfl
+
+theorem C02_facts_body_API_mapDecodeFloat : body_API_mapDecodeFloat = Hive.Spec.DeserFacts.body_API_mapDecodeFloat := rfl
+
+theorem C02_facts_body_API_mapDecodeNum : body_API_mapDecodeNum = Hive.Spec.DeserFacts.body_API_mapDecodeNum := rfl
+
+theorem C02_facts_body_SerializableOrderedMap_Decode : body_SerializableOrderedMap_Decode = Hive.Spec.DeserFacts.body_SerializableOrderedMap_Decode := rfl
+
 /-- the operands that denote the TARGET value (a `reflect.Value` of the registered Go type), not the JSON document -/
 def targetOperands : List String := ["value.Interface()", "value.Addr().Interface()", "deserializable"]
 
